@@ -46,7 +46,9 @@ INPUTS = [None, 0, 5, True, ["f", "1.5"], "5", "abc", "1.5", "null", "2020-01-02
           ["dt", 1577934245000006, 0], ["uuid", 7], ["b", "bytes", "7"], ["x", "opaque"], ["l", []], ["d", []], "", ["t", [1, 2]],
           # boundary numbers: members reject them with other exception classes (OverflowError, InvalidOperation, ...)
           ["f", "inf"], ["f", "-inf"], ["f", "nan"], ["dec", "Infinity"], ["dec", "NaN"], 10 ** 400, -(10 ** 400), "inf", "1e999",
-          ["b", "bytes", "\u00ff\u00fe"], ["l", [["f", "inf"]]], ["d", [["x", ["f", "inf"]], ["y", 1]]]]
+          ["b", "bytes", "\u00ff\u00fe"], ["l", [["f", "inf"]]], ["d", [["x", ["f", "inf"]], ["y", 1]]],
+          # bytes that are not text (a raw digest): no member reads them as None; oracle only (the model has no such value)
+          ["x", "binary"], ["x", "binary"]]
 
 
 def explore(ctx):
@@ -76,7 +78,9 @@ def explore(ctx):
         case = {"ann": enc.pyexpr(op["ty"], job["prog"]), "input": op["val"]}
         res.case(case, True)
         inp = {"prog": job["prog"], "ty": op["ty"], "val": op["val"], "members": ms, **case}
-        if _nonfinite(op["val"]) or _nonfinite(r_["union"].get("ok")):
+        if op["val"] == ["x", "binary"]:
+            res.count("um:correspondence-skipped-binary-bytes")
+        elif _nonfinite(op["val"]) or _nonfinite(r_["union"].get("ok")):
             # non-finite floats are outside U (the model has no inf / nan); the member-by-member oracle below still judges them
             res.count("um:correspondence-skipped-nonfinite")
         else:
